@@ -13,8 +13,10 @@
  3. Trace validation: seeded random polling runs (1 s instants; 1..36 arbiters)
     of the real view are validated against TraceView.tla.
 """
-import os, json, random, concurrent.futures
+import sys, os, json, random, concurrent.futures
 import vf
+sys.path.insert(0, os.path.dirname(os.path.abspath(__file__)))
+from cons_helpers import JVM_FAST, verdict_first
 
 META = dict(
     text="TLC checks View.tla, a transcription of calculateOffsetTimeV0/V1 and ChangeView/ChangeViewV1/TryChangeView* in "
@@ -65,8 +67,6 @@ CHECK_DEADLOCK FALSE
 """
 
 
-# short single-worker TLC runs on a busy machine: no parallel GC threads, C1 only
-JVM_FAST = ("-XX:-UseParallelGC", "-XX:+UseSerialGC", "-XX:TieredStopAtLevel=1")
 
 
 def dur(n, c, entry):
@@ -172,7 +172,7 @@ def run(chk):
     path = os.path.join(vf.scratch(), "c26-beh.jsonl")
     vf.write_json_lines(path, allb)
     recs, _ = vf.run_driver(binary, ["replay", path], timeout=3000)
-    chk.absorb(recs, "replay of %d behaviours" % len(allb))
+    chk.absorb(verdict_first(chk, recs), "replay of %d behaviours" % len(allb))
 
     # binding self-tests
     good = [b for b in allb if len(b) >= 2 and not b[-1]["exp"]["dev"] and b[-1]["args"]["variant"] == "V1"]
@@ -204,12 +204,17 @@ def run(chk):
         start = max(i for i in range(0, idx + 1) if '"Reset"' in lines[i])
         hist = [json.loads(x) for x in lines[start:idx + 1]]
         ev = hist[-1]
-        shape = "schedule-dependent" if not ev.get("indep", True) else "model"
-        chk.violations.append(("C26:trace:%s:%s" % (hist[0].get("variant"), shape),
-                               "recorded polling run of the real view is not a behaviour of View.tla at event %d: %s "
-                               "(TLC: %s)" % (idx + 1, json.dumps(ev)[:300], r["tail"].strip().splitlines()[-3:]),
-                               dict(trace=hist)))
-    chk.absorb(trecs, "record %d runs" % nruns)
+        what = ("recorded polling run of the real view is not a behaviour of View.tla at event %d: %s (TLC: %s)" %
+                (idx + 1, json.dumps(ev)[:300], r["tail"].strip().splitlines()[-3:]))
+        if not ev.get("indep", True):
+            # the real evaluation at this instant disagrees with the one-shot evaluation outside the deviation
+            chk.violations.append(("C26:trace:%s:schedule-dependent" % hist[0].get("variant"), what, dict(trace=hist)))
+        elif any(k not in {f["key"] for f in chk.known} for k, _, _ in chk.violations):
+            chk.notes.append("trace validation also rejected: " + what[:400])
+        else:
+            # schedule independence holds at the rejected event: the code left the transcription, not the property
+            raise vf.Infra("MODEL-MISMATCH C26: " + what)
+    chk.absorb(verdict_first(chk, trecs), "record %d runs" % nruns)
     for x in trecs:
         if x.get("kind") == "summary" and x.get("events_incremental_ne_oneshot", 0) > 0 and r["rc"] == 0:
             chk.violations.append(("C26:V1:entry-surcharge", "recorded runs: %d events where the incremental view differs "
